@@ -36,3 +36,47 @@ Lemma missing_file_is_error_refuted_lemma :
             summary l = [(29221, 0, 81, 1%float); (29222, 1, 81, 2%float); (29223, 2, 81, 3%float);
                          (29224, 0, 82, 1%float); (29225, 1, 82, 2%float)].
 Proof. eexists. split; vm_compute; reflexivity. Qed.
+
+(* ------------------------------------------------------------------ *)
+(* outside the property's quantifier (malformed files): lines the multi-year readers accept as a
+   record shifted by one column *)
+From Coq Require Import Ascii String.
+Set Warnings "-inexact-float".
+
+From Hermes Require Import DateModel WeatherTokModel.
+
+Definition csv_hdr9 : header := read_header (lstr_of "iso-date,tmin,tavg,tmax,precip,globrad,wind,relhumid,extra0"%string).
+
+(* empty tavg field; a surplus column keeps the token count sufficient *)
+Lemma empty_field_shifted_lemma :
+  csv_line (-99)%float csv_hdr9 1983 (lstr_of "1983-01-07,12.8,,23.2,1.5,8.0,2.0,51.0,0.6"%string)
+  = IRec (1983, 7, mkw 23.2%float 12.8%float 1.5%float 0.6%float 2.0%float 51.0%float 8.0%float) None.
+Proof. vm_compute. reflexivity. Qed.
+
+(* without the surplus column the same line is an index panic *)
+Lemma empty_field_panic_lemma :
+  csv_line (-99)%float (read_header (lstr_of "iso-date,tmin,tavg,tmax,precip,globrad,wind,relhumid"%string)) 1983
+           (lstr_of "1983-01-07,12.8,,23.2,1.5,8.0,2.0,51.0"%string) = IPanic.
+Proof. vm_compute. reflexivity. Qed.
+
+(* decimal comma: one token more, every later column read from its left neighbour *)
+Lemma decimal_comma_shifted_lemma :
+  csv_line (-99)%float (read_header (lstr_of "iso-date;tmin;tavg;tmax;precip;globrad;wind;relhumid"%string)) 1983
+           (lstr_of "1983-01-28;-8,6;-3.1;1.7;0.0;5.5;2.2;61.0"%string)
+  = IRec (1983, 28, mkw 6%float (-8)%float (-3.1)%float 2.2%float 0.0%float 5.5%float 1.7%float) None.
+Proof. vm_compute. reflexivity. Qed.
+
+(* CZ layout, empty TMAX, the optional CO2 column supplies the missing token *)
+Lemma cz_empty_field_shifted_lemma :
+  cz_line (-99)%float (read_header (lstr_of "@YYYYJJJ;TMIN;TMAX;RAD;PREC;WIND;RH;CO2"%string)) 1979
+          (lstr_of "1979123;2.9;;12.4;0.0;3.1;88.5;350"%string)
+  = IRec (cz_rec 1979 123 (mkw 0%float 2.9%float 12.4%float 350%float 0.0%float 88.5%float 3.1%float)) None.
+Proof. vm_compute. reflexivity. Qed.
+
+(* per-year layout: the same kind of line never yields a record: index panic / log.Fatal *)
+Lemma year_empty_field_panic_lemma :
+  year_line (T:=float) (lstr_of "4.1;1;;-99;90;0.2;3.1;0;64;1;1"%string) 0 empty_slot = TPanic.
+Proof. vm_compute. reflexivity. Qed.
+Lemma year_nonnumeric_fatal_lemma :
+  year_line (T:=float) (lstr_of "4.1;1;5.6;n/a;90;0.2;3.1;0;64;1;1"%string) 0 empty_slot = TFatal.
+Proof. vm_compute. reflexivity. Qed.
